@@ -142,3 +142,58 @@ func init() {
 	regCheck(&Check{ID: "C05", Quick: q05, Thorough: append(gt([]string{"C05.run-returns", "C05.no-temp-dir-left", "C04.every-input-set-once"}, []string{"ran"}), q05[1:]...),
 		Bounds: graphBounds, Outside: out, Assumptions: as, Stubs: st})
 }
+
+func init() {
+	ma := []string{"C08.arrival-order-kept", "C08.every-output-forwarded-once", "C08.run-returns"}
+	regCheck(&Check{ID: "C08",
+		Quick: []H{
+			{Pkg: "components", Fn: "VxH08", Params: p("n", 3, "bufsize", 1, "preempt", 1), MustReach: []string{"ran"}, MustAssert: ma},
+			{Pkg: "components", Fn: "VxH08fanin", Params: p("preempt", 2), MustReach: []string{"ran"}, MustAssert: []string{"C08.fanin.per-upstream-order-kept", "C08.fanin.all-delivered-once"}},
+		},
+		Thorough: []H{
+			{Pkg: "components", Fn: "VxH08", Params: p("n", 3, "bufsize", 1, "preempt", 2), MustReach: []string{"ran"}, MustAssert: ma},
+			{Pkg: "components", Fn: "VxH08", Params: p("n", 4, "bufsize", 2, "preempt", 1), MustReach: []string{"ran"}, MustAssert: ma},
+			{Pkg: "components", Fn: "VxH08fanin", Params: p("preempt", 3), MustReach: []string{"ran"}, MustAssert: []string{"C08.fanin.per-upstream-order-kept", "C08.fanin.all-delivered-once"}},
+		},
+		Bounds: map[string]string{
+			"workflow":  "FileSource(3 files; thorough also 4) -> command process -> recorder component, channel buffers of 1 (2); fan-in: two sources (3 + 2 files) into one in-port",
+			"schedule":  "delay-bounded: the lowest-numbered runnable goroutine runs by default; at every scheduling point (block, channel operation, go statement) the solver may choose another runnable goroutine, at most 1 (quick) / 2 (thorough) times per run; every select with several ready cases is a symbolic choice",
+			"pre-state": "the output of every later input may pre-exist (symbolic), so its task is skipped while earlier tasks still run",
+		},
+		Outside:     []string{"more than 2 deviations from the default schedule", "more than 4 items", "task durations are not modelled as times: only the order of completion matters"},
+		Assumptions: append(append([]string{}, envAssumptions...), commonAssumptions[0], commonAssumptions[3], "Go channels deliver per-sender FIFO (interpreter channel semantics)"),
+		Stubs:       []string{"os.*, exec.Command, ioutil.*, json, time.Now, log; Go channels/select/mutex as interpreter objects"}})
+}
+
+func init() {
+	ma := []string{"C17.run-completes", "C17.consumer-output-present", "C17.no-file-no-fifo-no-tempdir-left", "C17.consumer-received-producers-bytes", "C17.one-consumer-task-per-streamed-item"}
+	hs := []H{
+		{Pkg: "scipipe", Fn: "VxH17", Params: p("n", 2, "shape", 0, "preempt", 1), MustReach: []string{"ran"}, MustAssert: ma},
+		{Pkg: "scipipe", Fn: "VxH17", Params: p("n", 1, "shape", 1, "preempt", 0, "dirExists", 1), MustReach: []string{"ran"}, MustAssert: ma},
+		{Pkg: "scipipe", Fn: "VxH17", Params: p("n", 1, "shape", 1, "preempt", 0, "dirExists", 0), MustReach: []string{"ran"}, MustAssert: ma},
+		{Pkg: "scipipe", Fn: "VxH17", Params: p("n", 1, "shape", 2, "preempt", 0, "dirExists", 0), MustReach: []string{"ran"}, MustAssert: ma},
+		{Pkg: "scipipe", Fn: "VxH17", Params: p("n", 2, "shape", 3, "preempt", 0), MustReach: []string{"ran"}, MustAssert: ma},
+		{Pkg: "scipipe", Fn: "VxH17", Params: p("n", 2, "shape", 4, "preempt", 0), MustReach: []string{"ran"}, MustAssert: append([]string{"C04.ordinary-output-of-streaming-task-delivered"}, ma...)},
+		{Pkg: "scipipe", Fn: "VxH17rerun", MustReach: []string{"reran"}, MustAssert: []string{"C17.first-run-completes", "C17.rerun-leaves-consumer-output-untouched"}},
+		{Pkg: "scipipe", Fn: "VxH17leftover", Params: p("N", 40), MustReach: []string{"reran"}, MustAssert: []string{"C03.leftover-fifo-refused"}},
+	}
+	th := append([]H{}, hs...)
+	th[0] = H{Pkg: "scipipe", Fn: "VxH17", Params: p("n", 2, "shape", 0, "preempt", 2), MustReach: []string{"ran"}, MustAssert: ma}
+	th = append(th, H{Pkg: "scipipe", Fn: "VxH17", Params: p("n", 3, "shape", 3, "preempt", 1), MustReach: []string{"ran"}, MustAssert: ma})
+	regCheck(&Check{ID: "C17", Quick: hs, Thorough: th,
+		Bounds: map[string]string{
+			"workflow": "producer with a streaming out-port ({os:s}) fed by 1..3 parameter values -> one consumer per streaming port; variants: plain / ../ / absolute stream path (directory existing or not), two streaming ports with their own consumers, streaming + ordinary output on one process",
+			"slots":    "maxConcurrentTasks = 4n (the property's own precondition max >= 2n)",
+			"FIFO":     "a FIFO writer command and a FIFO reader command wait for each other; the reader receives the identity of the writer's invocation (payload sizes and partial reads are outside the model)",
+			"schedule": "delay-bounded, 0..2 deviations chosen by the solver",
+			"history":  "complete run then run again; run killed at a symbolic point with the FIFO left behind, temp dirs removed, run again",
+		},
+		Outside:     []string{"byte-exact transport through the kernel pipe (payloads below/above the pipe buffer)", "several consumers on one streaming port"},
+		Assumptions: append(append([]string{}, envAssumptions...), commonAssumptions[0], commonAssumptions[3]),
+		Stubs:       []string{"mkfifo / rm through the command model; os.Remove; FIFO rendezvous in the command model"}})
+	// C03: add the streaming leftover clause; C04: streaming task with an ordinary output
+	checks["C03"].Quick = append(checks["C03"].Quick, hs[7])
+	checks["C03"].Thorough = append(checks["C03"].Thorough, hs[7])
+	checks["C04"].Quick = append(checks["C04"].Quick, hs[5])
+	checks["C04"].Thorough = append(checks["C04"].Thorough, hs[5])
+}
